@@ -460,6 +460,12 @@ func (bf *buffer) ReadCommit(n int) (int, error) {
 // 2. a boolean indicating whether the bytes available wraps around the ring
 // 3. any errors encountered. If there's error then other return values are invalid
 func (bf *buffer) WriteWait(n int) ([]byte, bool, error) {
+	// More than the whole buffer can never become free: waiting for it would
+	// block the caller (and everybody behind it) forever.
+	if int64(n) > bf.size {
+		return nil, false, bufio.ErrBufferFull
+	}
+
 	start, cnt, err := bf.waitForWriteSpace(n)
 	if err != nil {
 		return nil, false, err
